@@ -175,7 +175,14 @@ func main() {
 		res.Extra["world_undecided"] = w.Undecided
 	}
 	seed, _ := strconv.Atoi(os.Getenv("VERIF_SEED"))
-	meta := report.Meta{Tier: tier, Seed: seed, Wall: time.Since(t0), VerifDir: verifDir,
+	outDir := verifDir
+	if o := os.Getenv("GBCHECK_OUT"); o != "" {
+		outDir = o // scratch runs of the thorough tier write their evidence and replay files elsewhere
+	}
+	if tier == "thorough" && os.Getenv("GBCHECK_REPO") == "" {
+		checks.Thorough(ctx, cmd, res, verifDir)
+	}
+	meta := report.Meta{Tier: tier, Seed: seed, Wall: time.Since(t0), VerifDir: verifDir, OutDir: outDir,
 		Packages: len(p.Pkgs), Functions: len(p.Funcs), Instrs: p.NumInstr, Commit: repoState(),
 		Cmd: "./check " + cmd + " " + tier,
 		WorldInfo: map[string]interface{}{"objects": len(w.It.Objects), "entries": len(w.Entries), "inference_rounds": w.Rounds, "invariant_cells": len(w.Inv), "int_width": intWidth()}}
